@@ -92,6 +92,10 @@ class _FalsyHandler:
         self._fn(err)
 
 
+class HandlerBoom(Exception):
+    """Raised (once) by a faulty application-supplied error handler."""
+
+
 class _MethodHandler:
     def __init__(self, fn):
         self._fn = fn
@@ -112,6 +116,7 @@ def run_reader(wire: bytes, cfg: dict, tr: dict, keep_objs=False, use_read=False
     transport = make_transport(wire, tr)
     out.transport = transport
     kw = reader_kwargs(cfg)
+    boom = {"armed": cfg.get("handler_kind") == "raise_once"}
     if cfg.get("handler", True):
 
         def handler(err):
@@ -119,6 +124,9 @@ def run_reader(wire: bytes, cfg: dict, tr: dict, keep_objs=False, use_read=False
                 out.events.append(("E",) + canon_exc(err))
             else:
                 out.handler_bad.append(repr(err))
+            if boom["armed"]:
+                boom["armed"] = False
+                raise HandlerBoom("the application's handler failed once")
 
         kind = cfg.get("handler_kind", "function")
         if kind == "falsy_callable":
@@ -146,9 +154,12 @@ def run_reader(wire: bytes, cfg: dict, tr: dict, keep_objs=False, use_read=False
             )
             out.objs.append(decoy)  # keep it alive for the whole run
         n = 0
-        if use_read:
+        if use_read or cfg.get("handler_kind") == "raise_once":
             while True:
-                raw, parsed = ubr.read()
+                try:
+                    raw, parsed = ubr.read()
+                except HandlerBoom:
+                    continue  # the application catches its own handler's failure and keeps reading
                 if raw is None and parsed is None:
                     break
                 out.items.append((raw, canon_parsed(parsed)))
